@@ -3,7 +3,8 @@
 Inputs: multi-block row streams (metadata, row-wise / transposed / malformed tables, directives, template rows,
 BLANK blocks, stray rows; blocks separated by a blank line or by nothing) read through
     parse_blocks(rows)      read_csv(StringIO(text), sep)      read_excel(workbook written with openpyxl)
-x to in {pdtable, jsondata, cellgrid} x tracker in {default (raising), collecting} x a predicate drawn as a random
+x to in {pdtable, jsondata, cellgrid} x tracker in {default (raising), collecting} x fixer in {none, lenient / custom
+instance, ParseFixer class, lenient subclass; a fresh one per read} x a predicate drawn as a random
 subset of the observed (type, name) pairs, wrapped in a recorder.
 
 Oracle (no Lean model involved), per case:
@@ -51,7 +52,35 @@ EXTRA = {
                      "iteration deliver the rows the harness observes with the same calls"],
 }
 
-NAMES = ["a", "b", "tab", "keep", "a*", "x y", "é", "", "k:", "t1", "drop", "a"]
+# incl. names not in NFC form (e + combining acute, a + combining ring, Hangul jamo): the filter must be offered the
+# name the parsed table reports, whatever that table does to its name
+NAMES = ["a", "b", "tab", "keep", "a*", "x y", "é", "", "k:", "t1", "drop", "a", "cafe\u0301", "a\u030a",
+         "\u1100\u1161", "e\u0301"]
+# read(fixer=...) variants: none (the default strict fixer), instances and classes, strict / lenient / custom
+FIXERS = [None, None, None, "lenient", "lenient", "custom", "class_strict", "class_lenient"]
+MODEL_FIXER = {None: "strict", "class_strict": "strict", "lenient": "lenient", "class_lenient": "lenient",
+               "custom": "custom"}
+DUP_NAMES = [["x", "x"], ["a", "b", "a"], ["a", "a", "a"], ["x", "x_fixed_000", "x"], ["b", "x", "x", "b"]]
+
+
+def fixer_arg(kind):
+    """a fresh fixer argument for ONE read (instances keep their message log and whatever else they remember)"""
+    from pdtable import ParseFixer
+    if kind is None:
+        return None
+    if kind in ("lenient", "custom"):
+        return rc.make_fixer(kind)
+    if kind == "class_strict":
+        return ParseFixer
+
+    class LenientFixer(ParseFixer):
+        def __init__(self):
+            super().__init__()
+            self.stop_on_errors = False
+            self._dbg = False
+            self._called_from_test = True
+    return LenientFixer
+
 SEPS = [";", ",", "|", "\t", "~"]
 
 
@@ -82,6 +111,18 @@ def gen_table(rng, native):
     elif r < 0.85:
         grid, info = rc.rand_grid(rng, native=native, malformed=0.6)
         kind = "bad" if info["bad"] else "rand"
+    elif r < 0.93:
+        # tables that repeat the same duplicated column names (a lenient fixer renames them, the default one fails)
+        t = rng.random() < 0.3
+        names = list(rng.choice(DUP_NAMES))
+        units = [rng.choice(["m", "-", "text"]) for _ in names]
+        data = [[("v" if u == "text" else rng.choice(["1", "2.5", "-"])) for u in units] for _ in range(rng.randint(0, 2))]
+        if t:
+            grid = [["**d*"], ["all"]] + [[n, u] + [row[j] for row in data] for j, (n, u) in enumerate(zip(names, units))]
+        else:
+            grid = [["**d"], ["all"], names, units] + data
+        info = {"transposed": t}
+        kind = "dup"
     else:
         # truncated tables: head only, head + destinations, head + dest + names (no unit row)
         t = rng.random() < 0.4
@@ -170,10 +211,12 @@ class Source:
             finally:
                 wb.close()
 
-    def read(self, to, pred, tracker):
+    def read(self, to, pred, tracker, fx=None):
         from pdtable.io.parsers.blocks import parse_blocks
         from pdtable import read_csv, read_excel
         kw = dict(to=to, filter=pred, issue_tracker=tracker)
+        if fx is not None:
+            kw["fixer"] = fixer_arg(fx)
         if self.api == "parse_blocks":
             return parse_blocks(iter([list(r) for r in self.seen[0]]), **kw)
         if self.api == "read_csv":
@@ -181,7 +224,7 @@ class Source:
         return read_excel(self.path, **kw)
 
 
-def run_read(src, to, pred, tracker_kind):
+def run_read(src, to, pred, tracker_kind, fx=None):
     """-> {"blocks", "issues", "ending", "events"}; events in delivery order:
        ["block", ty, canon, reported_name] | ["issue", row] | ["escaped", cls]"""
     from pdtable.table_origin import InputError, InputIssueTracker
@@ -204,7 +247,7 @@ def run_read(src, to, pred, tracker_kind):
     try:
         with warnings.catch_warnings():
             warnings.simplefilter("ignore")
-            for bt, val in src.read(to, pred, tr):
+            for bt, val in src.read(to, pred, tr, fx):
                 first = None
                 try:
                     first = val.metadata.origin.input_location.row
@@ -305,6 +348,7 @@ def one_case(rng, out, seed, idx, tmp, ops, pend, model_ok):
     api = rng.choice(["parse_blocks", "parse_blocks", "read_csv", "read_csv", "read_excel"])
     to = rng.choice(["pdtable", "jsondata", "cellgrid"])
     tracker = rng.choice(["raising", "collecting"])
+    fx = rng.choice(FIXERS)
     native = api != "read_csv" and rng.random() < 0.5
     n_sheets = rng.choice([1, 1, 2]) if api == "read_excel" else 1
     sheets, kinds = [], []
@@ -323,17 +367,18 @@ def one_case(rng, out, seed, idx, tmp, ops, pend, model_ok):
     elif api == "read_excel":
         sheets = [[[_san(c, True) for c in r] for r in rows] for rows in sheets]
     src = Source(api, sheets, tmp, sep, tag=f"c{idx}")
-    case = {"seed": seed, "index": idx, "api": api, "to": to, "tracker": tracker, "sep": sep,
+    case = {"seed": seed, "index": idx, "api": api, "to": to, "tracker": tracker, "fixer": fx, "sep": sep,
             "sheets": [grid_to_json(s) for s in src.seen]}
     for k in kinds:
         out.count("block:" + k)
     out.count("api:" + api)
     out.count("to:" + to)
     out.count("tracker:" + tracker)
+    out.count("fixer:" + str(fx))
 
     # --- frame: the unfiltered read, collecting; reported names from the pdtable form
-    U = run_read(src, to, None, "collecting")
-    Upd = U if to == "pdtable" else run_read(src, "pdtable", None, "collecting")
+    U = run_read(src, to, None, "collecting", fx)
+    Upd = U if to == "pdtable" else run_read(src, "pdtable", None, "collecting", fx)
     segs = [segmentation(rows) for rows in src.seen]
     flat = [(si, s) for si, sg in enumerate(segs) for s in sg]
     escaped = any(e[0] == "escaped" for e in U["events"]) or any(e[0] == "escaped" for e in Upd["events"])
@@ -368,7 +413,7 @@ def one_case(rng, out, seed, idx, tmp, ops, pend, model_ok):
         rec.append((bt.name, name))
         return p(bt, name)
 
-    F = run_read(src, to, pred, tracker)
+    F = run_read(src, to, pred, tracker, fx)
     rec_f = list(rec)
     n_tab = sum(1 for _, s in flat if s[0] == "TABLE")
     n_rej = sum(1 for (t, n) in rec_f if not p(BlockType[t], n))
@@ -458,7 +503,7 @@ def one_case(rng, out, seed, idx, tmp, ops, pend, model_ok):
     # --- correspondence: Lean parseBlocks with the same extensional filter; accepts() arguments
     if model_ok:
         for si, rows in enumerate(src.seen):
-            ops.append(bc.model_op(rows, to=to, filt=spec, tracker=tracker))
+            ops.append(bc.model_op(rows, to=to, filt=spec, tracker=tracker, fixer_kind=MODEL_FIXER[fx]))
             pend.append(("parse", si))
             ops.append({"op": "offered", "rows": grid_to_json(rows)})
             pend.append(("offered", si))
@@ -495,7 +540,7 @@ def one_case(rng, out, seed, idx, tmp, ops, pend, model_ok):
         out.count("content:rewrite_moved_boundaries")
         return
     rec.clear()
-    F2 = run_read(src2, to, pred, tracker)
+    F2 = run_read(src2, to, pred, tracker, fx)
     out.count("content:checked" + (":reshaped" if reshape else ""))
     if d:
         out.count("content:row_count_changed")
@@ -517,7 +562,7 @@ def one_case(rng, out, seed, idx, tmp, ops, pend, model_ok):
                  key="rejected_content:" + ("raises" if raised else "changes"))
     if model_ok:
         for sj, rows in enumerate(src2.seen):
-            ops.append(bc.model_op(rows, to=to, filt=spec, tracker=tracker))
+            ops.append(bc.model_op(rows, to=to, filt=spec, tracker=tracker, fixer_kind=MODEL_FIXER[fx]))
             pend.append(("parse", sj))
         pend.append(("case2", dict(case, rewritten_block=k, sheets2=[grid_to_json(s) for s in src2.seen]), spec, F2,
                      len(src2.seen)))
@@ -543,7 +588,7 @@ def run(tier, seed, model_ok, translator, search=False, _limit=None):
     out.rule = ("random multi-block streams (metadata, well-formed / random / malformed / truncated tables in both "
                 "orientations, directives, template rows, BLANK blocks; separated by blank lines or not at all; text "
                 "and native cells) x API {parse_blocks, read_csv(StringIO, 5 separators), read_excel(openpyxl workbook, "
-                "1-2 sheets)} x to x tracker x predicate = random subset of the observed (type, name) pairs (plus "
+                "1-2 sheets)} x to x tracker x fixer (default / lenient / custom; instance / class) x predicate = random subset of the observed (type, name) pairs (plus "
                 "accept-all / reject-all / tables-only), recorded. Non-trivial: at least two blocks and at least one "
                 "rejected block; distinct by (api, to, tracker, rows).")
     rng = make_rng(seed, "C11")
